@@ -283,7 +283,7 @@ def four_column_rows(rep, known):
 
 
 def run(tier, seed):
-    params = {'u1_depth': 2, 'u2_depth': 1, 'two_depth': 2, 'u3_depth': 1} if tier == 'quick' else {'u1_depth': 3, 'u2_depth': 2, 'two_depth': 3, 'u3_depth': 1}
+    params = {'u1_depth': 3, 'u2_depth': 2, 'two_depth': 2, 'u3_depth': 1} if tier == 'quick' else {'u1_depth': 3, 'u2_depth': 2, 'two_depth': 3, 'u3_depth': 1}
     extra = {}
 
     def samples(p):
